@@ -10,6 +10,6 @@ mkdir -p .bin .work evidence/replay
 ./.bin/gen ${VERIF_REPO:-/repo} $V/lean/FP/Gen $V/.work/gen.json || true
 python3 lean/mkall.py
 ./buildharness.sh $V/.bin/harness
-mkdir -p .work/schema && ./.bin/harness schema quick 0 .work/schema && cp .work/schema/Schema.lean lean/FP/Gen/Schema.lean
+mkdir -p .work/schema && ./.bin/harness schema quick 0 .work/schema && cp .work/schema/Schema.lean lean/FP/Gen/Schema.lean && cp .work/schema/NavSchema.lean lean/FP/Gen/NavSchema.lean
 (cd lean && lake build FP driver)
 echo setup-ok
